@@ -140,15 +140,139 @@ Definition legal_prefix (p : text) : bool :=
   existsb (text_eqb l)
     [[]; [114]; [117]; [98]; [102]; [98; 114]; [114; 98]; [102; 114]; [114; 102]].
 
-(* like match_at, but a prefixed literal needs a lexer word boundary before it and a legal prefix *)
-Definition ref_match_at (prev_word : bool) (r : text) : option (nat * option text) :=
-  match match_at false r with
-  | Some (n, Some pre) =>
-      match pre with
-      | [] => Some (n, Some pre)
-      | _ => if negb prev_word && legal_prefix pre then Some (n, Some pre) else None
+(* ---- Python 3.12 f-strings (PEP 701): the extent of an f-string with nested replacement fields.
+   d = the delimiter (one or three quote characters), raw = the prefix has an r.
+   Modes: literal part; expression part of a replacement field (bracket depth, the word read so far — a quote after
+   a legal prefix word starts a nested, possibly f-, literal, even with the enclosing quote character); format spec.
+   stack: where each open replacement field returns to (false = literal part, true = a format spec). *)
+Inductive fmode := FLit | FExpr (depth : Z) (word : text) | FSpec.
+
+Fixpoint starts_with (d r : text) : bool :=
+  match d, r with
+  | [], _ => true
+  | x :: d', y :: r' => (x =? y) && starts_with d' r'
+  | _ :: _, [] => false
+  end.
+
+Fixpoint until_char (k : N) (r : text) : option nat :=      (* characters up to and including the first k *)
+  match r with
+  | [] => None
+  | c :: r' => if c =? k then Some 1%nat else option_map S (until_char k r')
+  end.
+
+Definition has_f_text (p : text) : bool := existsb (fun c => (c =? 102) || (c =? 70)) p.
+Definition has_r_text (p : text) : bool := existsb (fun c => (c =? 114) || (c =? 82)) p.
+Definition delim_of (r : text) : text :=
+  match r with
+  | q :: c1 :: c2 :: _ => if (c1 =? q) && (c2 =? q) then [q; q; q] else [q]
+  | q :: _ => [q]
+  | [] => []
+  end.
+
+Fixpoint fscan (fuel : nat) (d : text) (raw : bool) (m : fmode) (stack : list bool) (r : text) {struct fuel} : option nat :=
+  match fuel with
+  | O => None
+  | S f =>
+      let skip1 m' st' := match r with _ :: r1 => option_map S (fscan f d raw m' st' r1) | [] => None end in
+      let skip2 m' := match r with _ :: _ :: r2 => option_map (fun n => S (S n)) (fscan f d raw m' stack r2) | _ => None end in
+      let pop := match stack with
+                 | b :: st' => skip1 (if b then FSpec else FLit) st'
+                 | [] => None
+                 end in
+      match r with
+      | [] => None
+      | c :: r1 =>
+          match m with
+          | FLit =>
+              if starts_with d r then Some (length d)
+              else if c =? 123 then
+                match r1 with
+                | c1 :: _ => if c1 =? 123 then skip2 FLit else skip1 (FExpr 0 []) (false :: stack)
+                | [] => None
+                end
+              else if c =? 125 then
+                match r1 with
+                | c1 :: _ => if c1 =? 125 then skip2 FLit else None
+                | [] => None
+                end
+              else if c =? cBSL then
+                match r1 with
+                | [] => None
+                | n :: r2 =>
+                    if (n =? 123) || (n =? 125) then skip1 FLit stack
+                    else if negb raw && (n =? 78) && match r2 with c2 :: _ => c2 =? 123 | [] => false end then
+                      match until_char 125 r2 with
+                      | Some k => option_map (fun x => (2 + k + x)%nat) (fscan f d raw FLit stack (skipn k r2))
+                      | None => None
+                      end
+                    else skip2 FLit
+                end
+              else if (c =? cNL) && Nat.eqb (length d) 1 then None
+              else skip1 FLit stack
+          | FExpr depth word =>
+              if is_quote c then
+                let w := map lower word in
+                let n :=
+                  if legal_prefix w && has_f_text w then
+                    let d' := delim_of r in
+                    option_map (fun x => (length d' + x)%nat) (fscan f d' (has_r_text w) FLit [] (skipn (length d') r))
+                  else string_at r in
+                match n with
+                | Some k => option_map (fun x => (k + x)%nat) (fscan f d raw (FExpr depth []) stack (skipn k r))
+                | None => None
+                end
+              else if is_open c then skip1 (FExpr (depth + 1) []) stack
+              else if (c =? 41) || (c =? 93) then skip1 (FExpr (depth - 1) []) stack
+              else if c =? 125 then (if (depth =? 0)%Z then pop else skip1 (FExpr (depth - 1) []) stack)
+              else if (c =? 58) && (depth =? 0)%Z then skip1 FSpec stack
+              else if c =? cHASH then
+                let k := until_nl r in
+                option_map (fun x => (k + x)%nat) (fscan f d raw (FExpr depth []) stack (skipn k r))
+              else skip1 (FExpr depth (if lex_word_char c then word ++ [c] else [])) stack
+          | FSpec =>
+              if c =? 123 then skip1 (FExpr 0 []) (true :: stack)
+              else if c =? 125 then pop
+              else if starts_with d r then None
+              else if (c =? cNL) && Nat.eqb (length d) 1 then None
+              else if (c =? cBSL) && match r1 with n :: _ => negb ((n =? 123) || (n =? 125)) | [] => false end then skip2 FSpec
+              else skip1 FSpec stack
+          end
       end
-  | other => other
+  end.
+
+(* r starts at the opening quote of an f-string: characters up to and including the closing delimiter *)
+Definition fstring_ref (raw : bool) (r : text) : option nat :=
+  let d := delim_of r in
+  option_map (fun x => (length d + x)%nat) (fscan (S (length r)) d raw FLit [] (skipn (length d) r)).
+
+(* number of leading prefix letters (at most 5 are counted) *)
+Fixpoint prefix_run (k : nat) (r : text) : nat :=
+  match k, r with
+  | S k', c :: r1 => if is_prefix_char c then S (prefix_run k' r1) else O
+  | _, _ => O
+  end.
+
+(* what the lexer starts at the head of r: a comment, a literal at a quote, or — at a word boundary — a legal
+   prefix followed by a literal; f-literals extend as Python 3.12 nests them *)
+Definition ref_match_at (prev_word : bool) (r : text) : option (nat * option text) :=
+  match r with
+  | c :: r1 =>
+      if c =? cHASH then Some (S (until_nl r1), None)
+      else if is_quote c then option_map (fun n => (n, Some [])) (string_at r)
+      else if is_prefix_char c && negb prev_word then
+        let p := prefix_run 5 r in
+        let pre := firstn p r in
+        let rest := skipn p r in
+        match rest with
+        | q :: _ =>
+            if is_quote q && legal_prefix pre then
+              option_map (fun n => ((p + n)%nat, Some pre))
+                         (if has_f_text pre then fstring_ref (has_r_text pre) rest else string_at rest)
+            else None
+        | [] => None
+        end
+      else None
+  | [] => None
   end.
 
 Fixpoint ref_go (r : text) (p : N) (skip : nat) (prev_word : bool) : list region :=
@@ -167,33 +291,33 @@ Fixpoint ref_go (r : text) (p : N) (skip : nat) (prev_word : bool) : list region
 
 Definition ref_regions (s : text) : list region := ref_go s 0 O false.
 
-(* the same scan as scan_go, reporting for every region whether the character before it is a lexer word character *)
-Fixpoint scan_ext_go (u : utable) (r : text) (p : N) (skip : nat) (pw pl : bool) : list (region * bool) :=
+Definition match_eqb (a b : option (nat * option text)) : bool :=
+  match a, b with
+  | Some (n, pa), Some (m, pb) =>
+      Nat.eqb n m && match pa, pb with Some x, Some y => text_eqb x y | None, None => true | _, _ => false end
+  | None, None => true
+  | _, _ => false
+  end.
+
+(* boolean side condition of C14_regions_are_tokens_partial: at every position the scanner reaches whose head is a
+   prefix letter, the regular expression and the lexer start the same thing. It fails exactly for: an illegal prefix
+   spelling in front of a literal, a prefix directly after a non-alphanumeric character above 127 (both: not valid
+   programs), and an f-literal whose extent under 3.12 nesting differs from the regular expression's (open finding). *)
+Fixpoint lex_sane_go (u : utable) (r : text) (skip : nat) (pw pl : bool) : bool :=
   match r with
-  | [] => []
+  | [] => true
   | c :: r1 =>
       match skip with
-      | S k => scan_ext_go u r1 (N.succ p) k (is_word_char u c) (lex_word_char c)
+      | S k => lex_sane_go u r1 k (is_word_char u c) (lex_word_char c)
       | O =>
-          match match_at pw r with
-          | Some (n, pre) =>
-              ((p, p + N.of_nat n, pre), pl) :: scan_ext_go u r1 (N.succ p) (n - 1) (is_word_char u c) (lex_word_char c)
-          | None => scan_ext_go u r1 (N.succ p) O (is_word_char u c) (lex_word_char c)
-          end
+          (negb (is_prefix_char c) || match_eqb (match_at pw r) (ref_match_at pl r))
+          && match match_at pw r with
+             | Some (n, _) => lex_sane_go u r1 (n - 1) (is_word_char u c) (lex_word_char c)
+             | None => lex_sane_go u r1 O (is_word_char u c) (lex_word_char c)
+             end
       end
   end.
-
-Definition scan_ext (u : utable) (s : text) : list (region * bool) := scan_ext_go u s 0 O false false.
-
-(* boolean side condition: every prefixed region carries a legal prefix spelling and is not preceded by a character
-   that the lexer counts as a word character although it is not \w (a non-alphanumeric character above 127).
-   Both can only fail on texts that are not valid programs (an identifier directly followed by a literal). *)
-Definition region_clean (x : region * bool) : bool :=
-  match r_prefix (fst x) with
-  | Some ((_ :: _) as pre) => negb (snd x) && legal_prefix pre
-  | _ => true
-  end.
-Definition prefix_sane (u : utable) (s : text) : bool := forallb region_clean (scan_ext u s).
+Definition lex_sane (u : utable) (s : text) : bool := lex_sane_go u s O false false.
 
 (* well-formed region list for a text of length n, starting at offset lo:
    ascending, disjoint, inside the text; comments have length >= 1, strings length >= 2 *)
